@@ -67,4 +67,33 @@ theorem result_AddError_refines (ext : Ext Rat) (errs : List (Val Rat)) (e : Val
      | .error _ => False) := by
   simp [minigo, result_AddError]
 
+/-! #### the structured-log form -/
+
+def logState (started succ failed dropped dur : Int) (isFailed : Bool) (err : Option Nat) : State Rat :=
+  State.ofVars [("recv.IterationsStarted", .int started), ("recv.SuccessfulIterationCount", .int succ),
+    ("recv.FailedIterationCount", .int failed), ("recv.DroppedIterationCount", .int dropped), ("recv.Duration", .int dur),
+    ("recv.Period", .int dur), ("recv.Failed", .bool isFailed), ("recv.Error", optRef err)]
+
+/-- **the regenerated `ResultData.Log`** (D14): the `iteration_stats` group of the final log record is built from the
+result's own started / successful / failed / dropped counts, in that order, and its duration; the record is an error
+record ("Load Test Failed") iff the result is failed, an info record ("Load Test Passed") otherwise -/
+theorem views_Result_Log_refines (ext : Ext Rat) (started succ failed dropped dur : Int) (isFailed : Bool) (err : Option Nat) :
+    (match runFn ext 0 views_Result_Log (logState started succ failed dropped dur isFailed err) with
+     | .ok (_, s) =>
+       lookup "log.IterationStatsGroup" s.arrs =
+         some [[("0", .int started), ("1", .int succ), ("2", .int failed), ("3", .int dropped), ("4", .int dur)]] ∧
+       s.trace = [if isFailed then "arg0.Error(…)" else "arg0.Info(…)"]
+     | .error _ => False) := by
+  cases isFailed <;> cases err <;> simp [minigo, views_Result_Log, logState]
+
+/-- **the regenerated `ProgressData.Log`**: a progress record carries the period's counts, and as "started" their sum -/
+theorem views_Progress_Log_refines (ext : Ext Rat) (succ failed dropped dur : Int) :
+    (match runFn ext 0 views_Progress_Log (logState 0 succ failed dropped dur false none) with
+     | .ok (_, s) =>
+       lookup "log.IterationStatsGroup" s.arrs =
+         some [[("0", .int (succ + failed + dropped)), ("1", .int succ), ("2", .int failed), ("3", .int dropped), ("4", .int dur)]] ∧
+       s.trace = ["arg0.Info(…)"]
+     | .error _ => False) := by
+  simp [minigo, views_Progress_Log, logState]
+
 end F1.Props.Refine
